@@ -12,13 +12,24 @@
 EXTENDS Host, TLC, Json, IOUtils
 
 Cases == ndJsonDeserialize(IOEnv.VERIF_TRACES)
-VARIABLES id, k, st, pending, nobs, verdict
-vars == <<id, k, st, pending, nobs, verdict>>
+VARIABLES id, k, st, pending, nobs, verdict, objs
+vars == <<id, k, st, pending, nobs, verdict, objs>>
 Case == Cases[id]
 Items == Case.items
 Obs == Case.obs
 
-Init == /\ id \in DOMAIN Cases /\ k = 0 /\ pending = << >> /\ nobs = 0 /\ verdict = "running"
+(* C06: a template operand of a rotation is written as the negative number -j and stands   *)
+(* for the j-th value given at instantiation; Subst fills the values in, at any depth.   *)
+RECURSIVE Subst(_, _)
+Subst(ss, vals) ==
+  [n \in DOMAIN ss |->
+     LET s == ss[n] IN
+     IF s.s = "gate" THEN [s EXCEPT !.imm = [j \in DOMAIN s.imm |-> IF s.imm[j] < 0 THEN vals[0 - s.imm[j]] ELSE s.imm[j]]]
+     ELSE IF s.s \in {"if", "loop", "foreach"} THEN [s EXCEPT !.body = Subst(s.body, vals)]
+     ELSE IF s.s = "until" THEN [s EXCEPT !.body = Subst(s.body, vals), !.cleanup = Subst(s.cleanup, vals)]
+     ELSE s]
+
+Init == /\ id \in DOMAIN Cases /\ k = 0 /\ pending = << >> /\ nobs = 0 /\ verdict = "running" /\ objs = << >>
         /\ st = [ arrs |-> [a \in { Cases[id].addrs[i] : i \in DOMAIN Cases[id].addrs } |-> NoArr],
                   regs |-> [h \in { Cases[id].handles[i] : i \in DOMAIN Cases[id].handles } |-> Undef],
                   alive |-> {}, glog |-> << >>, meas |-> Cases[id].meas, lv |-> << >>, fault |-> "" ]
@@ -27,7 +38,7 @@ ArrProj(s) == [i \in DOMAIN Case.addrs |-> s.arrs[Case.addrs[i]].v]
 FlushDiff(s, pre, o) ==
   IF (s.fault # "") # o.fault THEN "controller-fault"
   ELSE IF s.fault # "" THEN ""
-  ELSE IF SubSeq(s.glog, Len(pre.glog) + 1, Len(s.glog)) # o.glog THEN "gate-or-measurement-log"
+  ELSE IF Case.cmpglog /\ SubSeq(s.glog, Len(pre.glog) + 1, Len(s.glog)) # o.glog THEN "gate-or-measurement-log"
   ELSE IF ArrProj(s) # o.arrs THEN "array-contents"
   ELSE ""
 ReadVal(s, loc) ==
@@ -41,17 +52,28 @@ Next ==
      CASE it.s = "flush" ->
             LET s1 == Flush(st, pending)
                 d == FlushDiff(s1, st, Obs[nobs + 1])
-            IN /\ st' = s1 /\ pending' = << >> /\ nobs' = nobs + 1
+            IN /\ st' = s1 /\ pending' = << >> /\ nobs' = nobs + 1 /\ UNCHANGED objs
                /\ verdict' = IF d # "" THEN d
+                             ELSE IF s1.fault # "" \/ k + 1 = Len(Items) THEN "ok" ELSE "running"
+       [] it.s = "compile" ->
+            \* the pending operations become a compiled object; nothing is left pending (as after a flush)
+            /\ objs' = Append(objs, pending) /\ pending' = << >> /\ UNCHANGED <<st, nobs>>
+            /\ verdict' = IF k + 1 = Len(Items) THEN "ok" ELSE "running"
+       [] it.s = "commit" ->
+            \* committing an instantiated object = flushing the same operations written with the values
+            LET s1 == Flush(st, Subst(objs[it.obj], it.vals))
+                d == FlushDiff(s1, st, Obs[nobs + 1])
+            IN /\ st' = s1 /\ nobs' = nobs + 1 /\ UNCHANGED <<pending, objs>>
+               /\ verdict' = IF d # "" THEN "commit-" \o d
                              ELSE IF s1.fault # "" \/ k + 1 = Len(Items) THEN "ok" ELSE "running"
        [] it.s = "read" ->
             LET want == ReadVal(st, it.loc)
                 got == Obs[nobs + 1].v
-            IN /\ UNCHANGED <<st, pending>> /\ nobs' = nobs + 1
+            IN /\ UNCHANGED <<st, pending, objs>> /\ nobs' = nobs + 1
                /\ verdict' = IF got # want THEN "host-read-" \o it.loc.k
                              ELSE IF k + 1 = Len(Items) THEN "ok" ELSE "running"
        [] OTHER ->
-            /\ pending' = Append(pending, it) /\ UNCHANGED <<st, nobs>>
+            /\ pending' = Append(pending, it) /\ UNCHANGED <<st, nobs, objs>>
             /\ verdict' = IF k + 1 = Len(Items) THEN "ok" ELSE "running"
 Spec == Init /\ [][Next]_vars
 
